@@ -425,6 +425,14 @@ class ExtrasMixin:
         x = self.num(v)
         return VInt(z3.If(x >= 0, z3.ToInt(x), -z3.ToInt(-x)))
 
+    def spec_nth_value(self, node, frame):
+        """value stored under the j-th key (in iteration order) of a symbolic dict"""
+        d = self.eval(node.args[0], frame)
+        j = self.eval(node.args[1], frame)
+        r = self.run.rec(d.oid)
+        ks = z3.Array(f"{r.sym}#order", z3.IntSort(), self.sort_of(r.ktype))
+        return self.symdict_val(d, r, z3.Select(ks, j.t))
+
     def spec_truthy(self, node, frame):
         return VBool(E.simp(self.truthy(self.eval(node.args[0], frame))))
 
